@@ -8,3 +8,5 @@ VERIF_BUDGET_S=$B /verif/scripts/check.sh "$PROP" quick | grep -E "VIOLATION|OK 
 RC=${PIPESTATUS[0]}
 git -C /repo checkout -- . 
 echo "exit=$RC"
+# leave bin/walsim built from the unmodified tree
+/verif/scripts/setup.sh >/dev/null 2>&1
